@@ -49,6 +49,15 @@ def harnesses(tier):
                 "prefix yields the new value, postfix the old one, the new value is assigned once; Overflow at the edges assigns nothing",
                 timeout=600, mod=M, stubs=VARSTUB),
     ]
+    for n in ((3,) if tier == "quick" else (1, 2, 3, 4)):
+        words = ["10", "010", "0x1", "08", "007", "0X1f", "1e1", "9z", "0", "00", "0x10", "042"]
+        hs.append(Harness("c03_variable_constant_%d" % n, "every word of %d ASCII letters / digits starting with a digit" % n,
+                          ["yash_arith::eval::expand_variable", "yash_arith::token::Tokens::next_token"],
+                          "$((x)) and $(($x)) agree: when the text of x is read as the constant c by the tokenizer and the variable "
+                          "expansion yields a value, that value is c", timeout=1200, mem_gb=12, mod=M,
+                          stubs=["core::unicode::unicode_data::{alphabetic,n}::lookup -> arbitrary bool above U+007F"],
+                          cbmc_unwind=n + 6, loop_bounds=[(r"token::Operator\)> as std::iter::Iterator>::try_fold", 39)],
+                          native_cases=[[(ord(ch), 1) for ch in w] for w in words if len(w) == n], cover_group="c03_variable_constant"))
     for nm, tpl in [("or", "l || 1/0"), ("and", "l && 1/0")]:
         hs.append(Harness("c03_lazy_" + nm, "template `%s` built as an AST; c / l: all i64" % tpl,
                           ["yash_arith::eval::eval", "yash_arith::eval::apply_binary", "yash_arith::eval::into_value"],
